@@ -37,6 +37,10 @@ pub enum Pair {
         #[serde(default = "one")]
         b: usize,
     },
+    /// as BlindingShift, but the witness is assembled through the public fields of `RangeWitness` and
+    /// its first opening carries only `short` blinding factors; the shifted positions of opening j >= 1
+    /// lie at or beyond `short`
+    RaggedShift { j: usize, a: usize, b: usize, short: usize },
     /// opening j: (v, r_0) vs (v + 1, r_0 - 1) under H = G_0: same commitment, different value
     ValueTrade { j: usize },
     Context,
@@ -98,6 +102,17 @@ fn build_side(
     pc: PedersenGens<FreePoint>,
     adjust: impl Fn(usize, &mut u64, &mut Vec<Scalar>),
 ) -> Side {
+    build_side_with(cfg, wit, ctx, pc, adjust, None)
+}
+
+fn build_side_with(
+    cfg: &Config,
+    wit: &WitnessSpec,
+    ctx: &Context,
+    pc: PedersenGens<FreePoint>,
+    adjust: impl Fn(usize, &mut u64, &mut Vec<Scalar>),
+    short0: Option<usize>,
+) -> Side {
     use tari_bulletproofs_plus::{commitment_opening::CommitmentOpening, range_witness::RangeWitness};
     let params = custom_params::<FreePoint>(cfg.bits, cfg.cap, pc);
     let mut commitments = Vec::new();
@@ -106,10 +121,20 @@ fn build_side(
         let mut v = wit.values[j];
         let mut r = wit.blindings(j, cfg.ext);
         adjust(j, &mut v, &mut r);
+        if let (0, Some(s)) = (j, short0) {
+            r.truncate(s.max(1));
+        }
         commitments.push(FreePoint::commit(params.pc_gens(), &Scalar::from(v), &r).expect("commit"));
         openings.push(CommitmentOpening::new(v, r));
     }
-    let witness = RangeWitness::init(openings).expect("witness");
+    let witness = if short0.is_some() {
+        // the constructor insists on uniform openings; the fields are public
+        let mut w = RangeWitness::init(vec![CommitmentOpening::new(0, vec![Scalar::ZERO; cfg.ext])]).expect("witness");
+        w.openings = openings;
+        w
+    } else {
+        RangeWitness::init(openings).expect("witness")
+    };
     let statement = FreePoint::statement(params.clone(), commitments.clone(), wit.promises.clone(), wit.seed()).expect("statement");
     let public_statement = FreePoint::statement(params.clone(), commitments.clone(), wit.promises.clone(), None).expect("statement");
     Side {
@@ -143,6 +168,32 @@ fn sides(sc: &Scenario) -> Option<(Side, Side)> {
                     r[kb] -= delta;
                 }
             });
+            Some((sa, sb))
+        },
+        Pair::RaggedShift { j, a, b, short } => {
+            if cfg.ext < 3 || cfg.m < 2 {
+                return None;
+            }
+            let short = (*short).clamp(1, cfg.ext - 2);
+            let span = cfg.ext - short;
+            let (ka, kb) = (short + *a % span, short + *b % span);
+            let (ka, kb) = if ka == kb { (cfg.ext - 2, cfg.ext - 1) } else { (ka, kb) };
+            let jj = 1 + *j % (cfg.m - 1);
+            let delta = scalar_from_seed("c14delta", w.blind_seed, 3);
+            let sa = build_side_with(cfg, w, &sc.ctx, degenerate_pc(cfg.ext, Some((ka, kb)), false), none, Some(short));
+            let sb = build_side_with(
+                cfg,
+                w,
+                &sc.ctx,
+                degenerate_pc(cfg.ext, Some((ka, kb)), false),
+                move |j, _v, r| {
+                    if j == jj {
+                        r[ka] += delta;
+                        r[kb] -= delta;
+                    }
+                },
+                Some(short),
+            );
             Some((sa, sb))
         },
         Pair::ValueTrade { j } => {
@@ -383,6 +434,7 @@ fn execute(sc: &Scenario, st: &mut RunStats) -> Vec<Violation> {
     st.probe(&format!("pair_{}", match sc.pair {
         Pair::Identical => "identical",
         Pair::BlindingShift { .. } => "blinding_shift_same_commitment",
+        Pair::RaggedShift { .. } => "ragged_shift_same_commitment",
         Pair::ValueTrade { .. } => "value_trade_same_commitment",
         Pair::Context => "context",
         Pair::Promise { .. } | Pair::PromiseTo { .. } => "promise",
@@ -405,7 +457,7 @@ fn execute(sc: &Scenario, st: &mut RunStats) -> Vec<Violation> {
     let o1 = observables(&obs[0], &sa.params, seeded);
     let o2 = observables(&obs[1], &sb.params, seeded);
     // sanity for the same-commitment pairs: the public transcript prefix is identical
-    if matches!(sc.pair, Pair::BlindingShift { .. } | Pair::ValueTrade { .. }) {
+    if matches!(sc.pair, Pair::BlindingShift { .. } | Pair::RaggedShift { .. } | Pair::ValueTrade { .. }) {
         if sa.built.commitments != sb.built.commitments {
             out.push(Violation::new("harness:degenerate_pair_commitments_differ", "setup", format!("{:?}", sc.pair)));
             return out;
@@ -543,6 +595,16 @@ impl Check for C14 {
         if pair_sel == 1 && cfg.ext < 2 {
             cfg.ext = rng.range(2, 6) as usize;
         }
+        let ragged = pair_sel == 1 && !seeded && rng.chance(1, 3);
+        if ragged {
+            if cfg.ext < 3 {
+                cfg.ext = rng.range(3, 6) as usize;
+            }
+            if cfg.m < 2 {
+                cfg.m = 2;
+                cfg.cap = cfg.cap.max(2);
+            }
+        }
         let mut wit = WitnessSpec::generate(rng, &cfg, false);
         if seeded {
             wit.seed_nonce = Some(rng.next_u64());
@@ -551,6 +613,12 @@ impl Check for C14 {
         let j = rng.usize_below(cfg.m);
         let pair = match pair_sel {
             0 => Pair::Identical,
+            1 if ragged => Pair::RaggedShift {
+                j: rng.usize_below(cfg.m),
+                a: rng.usize_below(cfg.ext),
+                b: rng.usize_below(cfg.ext),
+                short: rng.range(1, cfg.ext as u64 - 2) as usize,
+            },
             1 => {
                 // any two blinding positions, biased to include the last one; opening biased to the last
                 let a = rng.usize_below(cfg.ext);
@@ -676,7 +744,7 @@ impl Check for C14 {
 
     fn required_probes(&self, _tier: Tier) -> Vec<&'static str> {
         vec![
-            "pair_identical", "pair_blinding_shift_same_commitment", "pair_value_trade_same_commitment", "pair_context",
+            "pair_identical", "pair_blinding_shift_same_commitment", "pair_ragged_shift_same_commitment", "pair_value_trade_same_commitment", "pair_context",
             "pair_promise", "pair_promise_positions", "pair_commitment", "pair_bits", "seeded", "unseeded", "same_commitment_different_witness",
             "rng_all_zero", "rng_all_ones", "rng_constant_byte", "rng_short_period", "rng_counter", "rng_stuck_after",
             "rng_replay", "rng_zero_block_at", "rng_repeat_block_at", "public_candidates_tried",
